@@ -149,6 +149,7 @@ func rewrite(path string, src []byte, t4 bool) ([]byte, []string, error) {
 		return nil, nil, nil
 	}
 	r.walkFile()
+	r.knobs(pkgOf(path))
 	if len(r.used) == 0 {
 		return nil, nil, nil
 	}
@@ -185,6 +186,74 @@ func rewrite(path string, src []byte, t4 bool) ([]byte, []string, error) {
 		return nil, nil, fmt.Errorf("rewritten file does not parse: %w", err)
 	}
 	return buf.Bytes(), ts, nil
+}
+
+func pkgOf(path string) string { return filepath.Base(filepath.Dir(path)) }
+
+// knob describes a statement inserted at the entry of a named method (T6):
+//
+//	if v := simrt.Knob("<name>"); v != 0 { return <conv>(v) }
+type knob struct{ pkg, recv, fn, name, conv string }
+
+var knobTable = []knob{
+	// pack size below the 4 MiB minimum that repository.New enforces
+	{"repository", "Repository", "PackSize", "packsize", "uint"},
+}
+
+func (r *rewriter) knobs(pkg string) {
+	for _, k := range knobTable {
+		if k.pkg != pkg {
+			continue
+		}
+		for _, d := range r.file.Decls {
+			fd, ok := d.(*ast.FuncDecl)
+			if !ok || fd.Name.Name != k.fn || fd.Recv == nil || len(fd.Recv.List) != 1 || fd.Body == nil {
+				continue
+			}
+			t := fd.Recv.List[0].Type
+			if st, ok := t.(*ast.StarExpr); ok {
+				t = st.X
+			}
+			if id, ok := t.(*ast.Ident); !ok || id.Name != k.recv {
+				continue
+			}
+			src := "package p\nfunc _() {\nif v := simrt.Knob(\"" + k.name + "\"); v != 0 { return " + k.conv + "(v) }\n}"
+			pf, err := parser.ParseFile(token.NewFileSet(), "knob.go", src, 0)
+			if err != nil {
+				continue
+			}
+			stmt := pf.Decls[0].(*ast.FuncDecl).Body.List[0]
+			clearPos(stmt)
+			fd.Body.List = append([]ast.Stmt{stmt}, fd.Body.List...)
+			r.used["T6:"+k.name] = true
+		}
+	}
+}
+
+// clearPos zeroes the positions of a grafted subtree so that the printer does
+// not try to interleave comments of the host file by the foreign offsets.
+func clearPos(n ast.Node) {
+	ast.Inspect(n, func(n ast.Node) bool {
+		switch x := n.(type) {
+		case *ast.Ident:
+			x.NamePos = 0
+		case *ast.BasicLit:
+			x.ValuePos = 0
+		case *ast.IfStmt:
+			x.If = 0
+		case *ast.AssignStmt:
+			x.TokPos = 0
+		case *ast.CallExpr:
+			x.Lparen, x.Rparen = 0, 0
+		case *ast.BinaryExpr:
+			x.OpPos = 0
+		case *ast.BlockStmt:
+			x.Lbrace, x.Rbrace = 0, 0
+		case *ast.ReturnStmt:
+			x.Return = 0
+		}
+		return true
+	})
 }
 
 func addImport(f *ast.File, path string) {
@@ -249,7 +318,16 @@ func (r *rewriter) walkFile() {
 					case r.isPkgSel(x.Fun, "os", "Hostname") && len(x.Args) == 0:
 						x.Fun = simSel("Hostname")
 						r.used["T4"] = true
+					case r.isPkgSel(x.Fun, "os", "FindProcess") && len(x.Args) == 1:
+						x.Fun = simSel("FindProcess")
+						r.used["T4"] = true
 					}
+				}
+				// T7: process-global signal channel -> nil channel under simulation
+				if r.isPkgSel(x.Fun, "github.com/restic/restic/internal/ui/signals", "GetProgressChannel") && len(x.Args) == 0 {
+					x.Args = []ast.Expr{x.Fun}
+					x.Fun = simSel("SignalChan")
+					r.used["T7"] = true
 				}
 				// T2b: x.Go(fn)
 				if s, ok := x.Fun.(*ast.SelectorExpr); ok && s.Sel.Name == "Go" && len(x.Args) == 1 && !x.Ellipsis.IsValid() {
